@@ -172,6 +172,17 @@ func Drive(t *testing.T, prop string, run runner, variants func(i int) []string,
 		running.Store(c.Index, c)
 		mm, broken := runProtected(run, nd, c, res)
 		running.Delete(c.Index)
+		// A new index can reach a peer through the gossiped schema before (and without) its
+		// existence field; requests then fail with "local field not found: _exists". That is a
+		// schema-propagation race of index creation, not a query answer: run the case again
+		// in another index.
+		for try := 0; try < 2 && mm != nil && !broken && strings.Contains(mm.Text, "local field not found"); try++ {
+			res.Cover("schema_race_retry")
+			c.Index += "r"
+			running.Store(c.Index, c)
+			mm, broken = runProtected(run, nd, c, res)
+			running.Delete(c.Index)
+		}
 		if broken {
 			pool.Replace(t, nd)
 		} else {
